@@ -28,7 +28,7 @@ LEVEL = "fault_enumeration"
 ASSUMPTIONS = ["faults are exceptions raised by user callbacks; interpreter-level faults (MemoryError, KeyboardInterrupt) are out of scope"]
 
 DOCUMENTED = ("ok", "SchemaError", "SchemaErrors", "SchemaDefinitionError", "SchemaInitError")
-ALLOWED_A = DOCUMENTED + ("user_callback_exception",)  # a Parser function raising its own exception
+ALLOWED_A = DOCUMENTED + ("user_callback_exception", "lazy_result_failed_on_collect")  # a Parser function raising its own exception
 
 
 # ---------------------------------------------------------------------------------------------
